@@ -25,7 +25,8 @@ func (c06) Info() core.Info {
 			"path-only and opaque-path bases (with/without query, fragment, credentials, port), 25 % mutated; laws: L1 url.ParseRef, Parser.ParseRef and Parse(base).Parse(ref) agree " +
 			"(error-ness and full snapshot); L2 the serialization of any parsed u resolves to u against any base; L3 empty reference = base without fragment (fails on an opaque base); " +
 			"L4 '#f' changes only the fragment, on every base, and every other scheme-less reference fails on an opaque base; L5 '?q' replaces the query, drops the fragment, keeps " +
-			"scheme, credentials, host, port, path; L6 a scheme-less reference yields the base's scheme. f, q and references are W-mutate/grammar strings. " +
+			"scheme, credentials, host, port, path; L6 a scheme-less reference yields the base's scheme. f, q and references are W-mutate/grammar strings. (*Url).Parse is exercised on base VALUES used before " +
+			"in five ways (fresh; SearchParams() read; getters + Clone read; earlier resolutions; earlier results mutated by their owner). " +
 			"Non-trivial: the base parses and the law's premise holds; distinct by (law, base, reference).",
 		Assumptions: []string{"'scheme-less' = does not match ^[A-Za-z][A-Za-z0-9+.-]*: after trimming C0/space and removing tab/newline"},
 		MinDistinct: map[string]int{"quick": 100000, "thorough": 1000000},
